@@ -182,3 +182,57 @@ Definition inclass_C07 (i:c07_in) : bool :=
   wf_schemab (fst i) && applicable (snd i) (fst i) && wf_schemab (apply_mut (snd i) (fst i))
   && defaults_ok (fst i) && defaults_ok (apply_mut (snd i) (fst i))
   && forallb (fun t => sigs_distinct (t_cons t)) (fst i) && forallb (fun t => sigs_distinct (t_cons t)) (apply_mut (snd i) (fst i)).
+
+(* ---------------------------------------------------------------- several changes at once
+   A list of catalogue mutations applied one after the other (a column removed and another added on the same table, a
+   table removed together with the foreign key that pointed at it, ...).  Each change is looked at on the schema it is
+   applied to (its stage).  Every change must be detected on its object, and every operation must be about an object
+   one of the changes touches. *)
+Fixpoint stages (ms:list mut) (A:schema) : list (schema * mut) :=
+  match ms with [] => [] | m :: r => (A, m) :: stages r (apply_mut m A) end.
+Fixpoint apply_muts (ms:list mut) (A:schema) : schema :=
+  match ms with [] => A | m :: r => apply_muts r (apply_mut m A) end.
+Definition touched (st:list (schema * mut)) : list objref := flat_map (fun x => touches (fst x) (snd x)) st.
+Definition mem_ref (r:objref) (l:list objref) : bool := existsb (objref_eqb r) l.
+Definition alter_tag (m:mut) : option N :=
+  match m with MFlipNullable _ _ => Some 0%N | MChangeType _ _ _ => Some 1%N | MChangeDefault _ _ _ => Some 2%N | _ => None end.
+Definition fk_clash (a b:mut) : bool :=
+  match a, b with MAddFk t _, MDropFk t' _ | MDropFk t _, MAddFk t' _ => N.eqb t t' | _, _ => false end.
+Definition ref_table (r:objref) : N := match r with RTable t | RColumn t _ | RCons t _ | RFk t _ | RUUq t _ => t end.
+Definition whole_table (m:mut) : option N := match m with MAddTable t => Some (t_name t) | MDropTable n => Some n | _ => None end.
+(* a change to a table that the same list adds or removes is part of that addition / removal *)
+Definition table_clash (a b:mut) : bool := match whole_table a with Some n => N.eqb n (ref_table (target b)) | None => false end.
+(* two changes do not interfere: they are about different objects, neither inside the other -- or they alter different
+   properties of the same column; a foreign key added and another removed on one table could be the same signature under
+   a new name, which is no change at all *)
+Definition indep2 (x y:schema * mut) : bool :=
+  negb (fk_clash (snd x) (snd y)) && negb (table_clash (snd x) (snd y)) && negb (table_clash (snd y) (snd x)) &&
+  (match alter_tag (snd x), alter_tag (snd y) with
+   | Some a, Some b => negb (N.eqb a b) && objref_eqb (target (snd x)) (target (snd y))
+   | _, _ => false end
+   || (negb (mem_ref (target (snd x)) (touches (fst y) (snd y))) && negb (mem_ref (target (snd y)) (touches (fst x) (snd x))))).
+Fixpoint pairwise {X} (p:X -> X -> bool) (l:list X) : bool :=
+  match l with [] => true | a :: r => forallb (p a) r && pairwise p r end.
+Definition stages_applicable (st:list (schema * mut)) : bool := forallb (fun x => applicable (snd x) (fst x)) st.
+Definition seq_ok (A:schema) (ms:list mut) : bool := stages_applicable (stages ms A) && pairwise indep2 (stages ms A).
+
+Definition c07s_in : Type := schema * list mut.
+Definition C07s_holds (i:c07s_in) (out:c07_out) : Prop :=
+  map fst out = all_cfgs /\          (* the comparison ran (no exception) under every setting *)
+  forall g ops, In (g, ops) out ->
+    (forall x, In x (stages (snd i) (fst i)) -> enabled g (snd x) = true -> detects (fst x) (snd x) ops) /\
+    (forall o, In o ops -> In (op_target o) (touched (stages (snd i) (fst i)))).
+Definition check_C07s (i:c07s_in) (out:c07_out) : bool :=
+  list_eqb cfg_eqb (map fst out) all_cfgs &&
+  forallb (fun r => forallb (fun x => implb (enabled (fst r) (snd x)) (detectsb (fst x) (snd x) (snd r))) (stages (snd i) (fst i))
+                    && forallb (fun o => mem_ref (op_target o) (touched (stages (snd i) (fst i)))) (snd r)) out.
+Definition model_C07s (i:c07s_in) : c07_out :=
+  map (fun g => (g, diff g (reflect_sqlite (fst i)) (apply_muts (snd i) (fst i)))) all_cfgs.
+Definition corr_C07s (i:c07s_in) (out:c07_out) : bool :=
+  list_forall2b (fun m r => cfg_eqb (fst m) (fst r) && ops_equiv (snd m) (snd r)) (model_C07s i) out.
+Definition inclass_C07s (i:c07s_in) : bool :=
+  seq_ok (fst i) (snd i) &&
+  no_unnamed_uq (fst i) && no_unnamed_uq (apply_muts (snd i) (fst i)) &&
+  wf_schemab (fst i) && wf_schemab (apply_muts (snd i) (fst i))
+  && defaults_ok (fst i) && defaults_ok (apply_muts (snd i) (fst i))
+  && forallb (fun t => sigs_distinct (t_cons t)) (fst i) && forallb (fun t => sigs_distinct (t_cons t)) (apply_muts (snd i) (fst i)).
